@@ -580,7 +580,7 @@ CKEYCLASS = {"a": "plain", "b": "plain", "empty": "empty", "k255": "max255", "k2
 
 
 class CState:
-    __slots__ = ("handles", "cfg", "sess", "cm", "model", "hist", "pending", "exists", "by", "bycfg", "bysess", "bycm", "bymodel")
+    __slots__ = ("handles", "cfg", "sess", "cm", "model", "hist", "pending", "exists", "by", "bycfg", "bysess", "bycm", "bymodel", "hdr", "ow_used", "gen")
 
     def __init__(self):
         self.handles = {}  # name -> Collection
@@ -590,6 +590,9 @@ class CState:
         self.model = {}
         self.hist = []
         self.exists = False
+        self.hdr = None  # header fields given by the LAST creation (None = what the system was set up with)
+        self.ow_used = ()
+        self.gen = {}  # handle -> number of re-creations it has caught up with (at its last session / construction)
         self.by = None  # the bystander: a Collection on ANOTHER file used by the same process
         self.bycfg = None
         self.bysess = None
@@ -599,10 +602,17 @@ class CState:
 
 ACCESSORS = ("items", "values", "iter", "len", "contains", "n_items", "getitem")
 
+# header variants used when the library is created anew (overwrite=True). The comment lengths 0 (initial), 3
+# and 5 never differ by a multiple of the 7-byte records of the re-creation layer, so a re-created file can
+# never have the size another handle remembers (a coincidence that is outside the property: see DESIGN 9.3)
+OW_HEADERS = {"c3": dict(comment="abc"), "c5": dict(comment="abcde")}
+
 
 class CSys:
     """ops:
     ("new", h, bufname, ro)      construct a Collection handle (creates the file when absent)
+    ("new", h, bufname, False, "ow", hdr)  construct it with overwrite=True and header `hdr`: the library is
+                                 created anew and the reference model starts again, empty
     ("pickle", h, src)           h = pickle round trip of src (how joblib workers get theirs)
     ("enter", h, "r"|"w")        __enter__ of reading()/writing()
     ("exit", h)                  clean __exit__
@@ -623,8 +633,9 @@ class CSys:
 
     BUFS = {"dflt": -1, "zero": 0, "small": 4, "large": 10**6}
 
-    def __init__(self, ctx, nhandles=2, keys=None, vals=None, bufs=None, label="C", hdr_kw=None, first_acc="buffered", bystander=False):
+    def __init__(self, ctx, nhandles=2, keys=None, vals=None, bufs=None, label="C", hdr_kw=None, first_acc="buffered", bystander=False, recreate=False):
         self.ctx = ctx
+        self.recreate = recreate  # handles constructed with overwrite=True: the library starts again, empty
         self.first_acc = first_acc  # None | "buffered" (one value per key, handles that queue) | "all"
         self.bystander = bystander
         self.hdr_kw = hdr_kw  # header fields given when the first handle creates the file
@@ -734,6 +745,11 @@ class CSys:
                     ops.append(("new", n, "dflt", True))
                     if i > 0:
                         ops.append(("pickle", n, names[i - 1]))
+                        if self.recreate:
+                            for hn in OW_HEADERS:
+                                if hn not in st.ow_used:
+                                    ops.append(("new", n, "dflt", False, "ow", hn))
+                                    ops.append(("new", n, "large", False, "ow", hn))
                 break
         for n in names:
             if n not in st.handles:
@@ -903,11 +919,14 @@ class CSys:
                 return False
             return self._check_views(st, op) and self._check_by(st, op)
         if kind == "new":
-            _, name, b, ro = op
+            _, name, b, ro = op[:4]
+            ow = len(op) > 4 and op[4] == "ow"
             try:
                 kw = {}
                 if not st.exists and self.hdr_kw:
                     kw = dict(self.hdr_kw)
+                if ow:
+                    kw = dict(OW_HEADERS[op[5]], overwrite=True)
                 c = Collection(self.path, UkvCollectionBackend, bufsize=self.BUFS[b], readonly=ro, **kw)
             except Exception as e:
                 self.viol(st, op, "constructor-raised", f"Collection(...) raised {exc_name(e)}: {e}")
@@ -918,6 +937,12 @@ class CSys:
             st.cfg[name] = (b, ro)
             st.sess[name] = None
             st.exists = True
+            if ow:
+                # the library was created anew: nothing stored before exists any more
+                st.model = {}
+                st.hdr = dict(OW_HEADERS[op[5]])
+                st.ow_used = st.ow_used + (op[5],)
+            st.gen[name] = len(st.ow_used)
         elif kind == "pickle":
             _, name, src = op
             try:
@@ -930,6 +955,7 @@ class CSys:
             st.handles[name] = c
             st.cfg[name] = st.cfg[src]
             st.sess[name] = None
+            st.gen[name] = st.gen.get(src, 0)
         elif kind == "enter":
             _, name, m = op[:3]
             c = st.handles[name]
@@ -958,6 +984,7 @@ class CSys:
                     return False
                 st.cm[name] = cm
                 st.sess[name] = m
+                st.gen[name] = len(st.ow_used)
         elif kind in ("exit", "exitx"):
             _, name = op
             cm = st.cm.pop(name)
@@ -1089,7 +1116,7 @@ class CSys:
         if not any(st.sess.values()) and st.exists:
             fb = self.file_bytes()
             recs, hdr, clean = parse_ukv(fb)
-            kw = self.hdr_kw or {}
+            kw = st.hdr if st.hdr is not None else (self.hdr_kw or {})
             exp_hdr = ((kw.get("h1") or b"ML10UKV01"), (kw.get("comment") or "").encode(), kw.get("b0") or b"")
             got_hdr = (hdr[0].rstrip(b"\0"), hdr[1], hdr[2])
             if got_hdr != exp_hdr:
@@ -1097,7 +1124,9 @@ class CSys:
                 ok = False
             for name, c in st.handles.items():
                 uf = getattr(c._backend, "_ukvfile", None)
-                if uf is not None and hdr_of(uf) != exp_hdr:
+                # a handle that has not had a session since the library was created anew still remembers
+                # the old header: that is a cache, it has to be right from its next session on
+                if uf is not None and st.gen.get(name, 0) == len(st.ow_used) and hdr_of(uf) != exp_hdr:
                     self.viol(st, op, "header-changed", f"a handle shows headers {hdr_of(uf)!r} != {exp_hdr!r}")
                     ok = False
             if not clean or {k.decode(): v for k, v in recs} != exp or len(recs) != len(exp):
@@ -1134,7 +1163,7 @@ class CSys:
             be = st.by._backend
             bb = self.by_bytes()
             by = (st.bycfg, st.bysess, be._state, tuple(be._write_queue), tuple(sorted(be._keys)), be._usedmem, hashlib.sha1(bb).hexdigest() if bb is not None else None, tuple(sorted(st.bymodel.items())), seqx.extra_state(be, _BE_KNOWN))
-        return (hashlib.sha1(fb).hexdigest() if fb is not None else None, tuple(hs), tuple(sorted(st.model.items())), by)
+        return (hashlib.sha1(fb).hexdigest() if fb is not None else None, tuple(hs), tuple(sorted(st.model.items())), by, st.ow_used)
 
     def observe(self, st):
         return self.view(st)
@@ -1156,7 +1185,7 @@ def run(ctx):
     )
     ctx.assumptions += [
         "histories follow the reader/writer discipline that C04 establishes (no handle open for writing while another is open)",
-        "truncating opens (mode w / overwrite=True on an existing file) are not part of an insert-only history",
+        "a handle constructed with overwrite=True starts the history again (the reference model is emptied); mode 'w' on an existing UKVFile is not generated",
         "the reference model is a python dict; the file is additionally parsed by an independent 30-line reader of the documented layout",
     ]
     vals = values(ctx)
@@ -1204,6 +1233,9 @@ def run(ctx):
     # every accessor as the FIRST call after every put and every session entry
     layer("C_first_accessor_depth", lambda c: CSys(c, nhandles=2, keys=["a", "b"], vals={"x": b"x"}, bufs=["dflt", "small", "large"], label="C6", first_acc="all"), 9 if thorough else 6)
     layer("C_reduced_alphabet_depth", lambda c: CSys(c, nhandles=3 if thorough else 2, keys=["a", "k256"], vals={"x": b"x"}, bufs=["dflt", "large"], label="C3", first_acc=None), 10 if thorough else 9)
+    # the library created anew (a handle constructed with overwrite=True and another header) while older
+    # handles live on: they have to follow at their next session
+    layer("C_recreated_depth", lambda c: CSys(c, nhandles=3 if thorough else 2, keys=["a", "b"], vals={"x": b"x"}, bufs=["dflt", "large"] if thorough else ["dflt"], label="C7", first_acc=None, recreate=True), 10 if thorough else 9)
     # a second library on another path used by the same process, sessions on both open at the same time
     layer("C_with_second_library_depth", lambda c: CSys(c, nhandles=1, keys=["a", "b"], vals={"x": b"x"}, bufs=["dflt", "large"], label="C5", first_acc=None, bystander=True), 12 if thorough else 8)
     # header fields given at creation through the Collection constructor (each alone and together)
@@ -1222,7 +1254,7 @@ def replay(ctx, case):
     if case["layer"] == "U":
         sm = USys(ctx, nhandles=case.get("nh", 2), keys=list(KEYNAMES), vals={**values(ctx), "big70k": big_value(ctx.seed)}, label="replay", copy=True, remembered=True)
     else:
-        sm = CSys(ctx, nhandles=case.get("nh", 2), keys=list(CKEYS), vals={**values(ctx), "big70k": big_value(ctx.seed)}, label="replay", bystander=True)
+        sm = CSys(ctx, nhandles=case.get("nh", 2), keys=list(CKEYS), vals={**values(ctx), "big70k": big_value(ctx.seed)}, label="replay", bystander=True, recreate=True)
     hist = [tuple(o) for o in case["history"]]
     st = sm.build(hist[:-1])
     sm.step(st, hist[-1])
